@@ -90,6 +90,7 @@ def r_C23(root):
                             guarded = bool(comps) and all(full_match_guard(fdi.atoms_at(x)) for x in comps)
                         except AnalysisError: guarded = False
                     regex_safe = cn == "int" and d.name == "visit_integer"     # argument matched by [-+]?[0-9]+
+                    if cn == "compile" and d.name == "visit_str_match": guarded = True      # decided by evaluation: every pattern visit_str_match compiles is <identifier>\\b (C21.a, sa/rules/c21.py)
                     module_level = False
                     if not (prot or guarded or regex_safe):
                         # is the raiser called (transitively) only from a protected call site?  (decode_escapes <- visit_str_match)
@@ -290,21 +291,39 @@ def r_C19a_C01(root):
         g = [ast.unparse(x) for x, pol in guards(node)]
         if not ctx_in_key and not any("memoization" in x for x in g):
             out.append(Finding("C19", "C19.a", L, "TextXVisitor." + fn_name, " ".join(ast.unparse(node).split())[:80], "%s change the parser context, which arpeggio's packrat key (%s) ignores; combined with memoization=True results differ" % (what, sorted(keys))))
-    # C01.d: options forwarded under their own name; EOF wrap
-    vm = find(t, "TextXVisitor.visit_textx_model"); gm = next(c for c in calls(vm) if callee_name(c) == "get_model_parser")
+    # C01.d: options forwarded under their own name, by evaluation of visit_textx_model (sa/pyeval.py) with a recording
+    #        stand-in for get_model_parser: whatever way the arguments are put together, each option of the meta-model arrives
+    #        under its own name, the root rule and the Comment rule are handed over, the parser gets the meta-model
+    from sa import pyeval as _pe
+    vm = find(t, "TextXVisitor.visit_textx_model"); vps = [a_.arg for a_ in vm.args.args]
     OPT_PROP = {"memoization": ("C19", "C19.b"), "ignore_case": ("C20", "C20.b"), "autokwd": ("C21", "C21.b"), "skipws": ("C22", "C22.c"), "ws": ("C22", "C22.c")}
-    fi_vm = sem.info(vm)
-    for k in gm.keywords:
+    need = ["ignore_case", "skipws", "ws", "autokwd", "memoization", "debug"]
+    for with_comment in (False, True):
+        rec = []
+        def _gmp(top_rule, comments_model=None, **kw): rec.append((top_rule, comments_model, kw)); return {".kind": "parser"}
+        peg_c = {".kind": "comment-peg-rule"}
+        mm_ = {".kind": "metamodel", ".file": ("opt", "file")}
+        for o in need: mm_["." + o] = ("opt", o)
+        if with_comment: mm_["Comment"] = {"._tx_peg_rule": peg_c, ".kind": "cls"}
+        root_rule = {".kind": "root-rule"}
+        env = {"__functions__": {k_: v_ for k_, v_ in helper_functions(root, L, "TextXVisitor.visit_textx_model").items() if k_.startswith("_") and not k_.startswith("__")}, vps[0]: {".metamodel": mm_, ".kind": "visitor"}, vps[1]: {".kind": "node"}, vps[2]: [root_rule], "get_model_parser": _pe.PyFn(_gmp)}
+        try: res_ = _pe.run_block(vm.body, env); err_ = None
+        except _pe.Raised as r_: res_ = None; err_ = "raises " + r_.cls
+        except _pe.Unsupported as u_: raise AnalysisError("visit_textx_model: outside the evaluated subset: %s" % u_)
+        if err_ or len(rec) != 1:
+            inst += 1; out.append(Finding("C01", "C01.d", L, "TextXVisitor.visit_textx_model", "get_model_parser(...)", "the model parser is not created exactly once (%s)" % (err_ or "%d calls of get_model_parser" % len(rec)))); continue
+        top_, cm_, kw_ = rec[0]
+        if not with_comment:
+            for o in need:
+                inst += 1
+                okk = kw_.get(o) == ("opt", o)
+                for pr, ru in [("C01", "C01.d")] + ([OPT_PROP[o]] if o in OPT_PROP else []):
+                    ob(pr, ru, L, "TextXVisitor.visit_textx_model", "option %s reaches get_model_parser as the meta-model's %s" % (o, o), okk)
+                    if not okk: out.append(Finding(pr, ru, L, "TextXVisitor.visit_textx_model", "get_model_parser(... %s ...)" % o, "parser option %r of the metamodel is not forwarded to the model parser (it arrives as %s)" % (o, "nothing" if o not in kw_ else "the meta-model's %s" % (kw_[o][1] if isinstance(kw_[o], tuple) else kw_[o],))))
         inst += 1
-        okk = k.arg is not None and ast.unparse(fi_vm.expand(k.value, at=gm)) == "self.metamodel.%s" % k.arg
-        for pr, ru in [("C01", "C01.d")] + ([OPT_PROP[k.arg]] if k.arg in OPT_PROP else []):
-            ob(pr, ru, L, "TextXVisitor.visit_textx_model", "%s=%s" % (k.arg, ast.unparse(k.value)), okk)
-            if not okk: out.append(Finding(pr, ru, L, "TextXVisitor.visit_textx_model", "%s=%s" % (k.arg, ast.unparse(k.value)), "parser option %r is not forwarded from the metamodel" % k.arg))
-    need = {"ignore_case", "skipws", "ws", "autokwd", "memoization", "debug"}
-    miss = need - {k.arg for k in gm.keywords}
-    for o in sorted(miss):
-        for pr, ru in [("C01", "C01.d")] + ([OPT_PROP[o]] if o in OPT_PROP else []):
-            out.append(Finding(pr, ru, L, "TextXVisitor.visit_textx_model", "get_model_parser(... %s ...)" % o, "parser option %r of the metamodel is not forwarded to the model parser" % o))
+        okc_ = top_ is root_rule and (cm_ is peg_c if with_comment else cm_ is None) and isinstance(res_, dict) and res_.get(".metamodel") is mm_
+        ob("C01", "C01.d", L, "TextXVisitor.visit_textx_model", "root rule, Comment rule (%s) and meta-model handed to the parser" % ("present" if with_comment else "absent"), okc_)
+        if not okc_: out.append(Finding("C01", "C01.d", L, "TextXVisitor.visit_textx_model", "grammar %s a Comment rule" % ("with" if with_comment else "without"), "the model parser is built from %s with comment rule %s and %s" % ("the first rule" if top_ is root_rule else "something else than the first rule", "the Comment rule's expression" if cm_ is peg_c else cm_, "the meta-model attached" if isinstance(res_, dict) and res_.get(".metamodel") is mm_ else "no meta-model attached")))
     pi = find(load(root, M), "get_model_parser.TextXModelParser.__init__"); inst += 1
     pm = next((s for s in own_nodes(pi) if isinstance(s, ast.Assign) and ast.unparse(s.targets[0]) == "self.parser_model"), None)
     nodes = next((k.value for k in pm.value.keywords if k.arg == "nodes"), None) if pm is not None else None
@@ -392,10 +411,12 @@ def r_C19a_C01(root):
                 attr_ = c_.args[1].value; val_ = c_.args[2]
             try: ex_ = fi_.expand(val_, at=st_)
             except Exception: ex_ = val_
-            ks = _mod_keys_read(ex_) | _mod_keys_read(val_)
+            ks = _mod_keys_read(ex_) | _mod_keys_read(val_); gk = set()
             for g_, pol_ in guards(st_):
+                gk |= _mod_keys_read(g_)
                 if pol_: ks |= _mod_keys_read(g_)
-            if attr_ in ks: rd.add(attr_)          # rule.<k> is written from / under modifier key <k>
+            # rule.<k> is written from / under modifier key <k>, and whether it is written depends on no other modifier
+            if attr_ in ks and gk <= {attr_}: rd.add(attr_)
         need_ = {"sep", "eolterm"} & wkeys
         if not need_ <= rd: out.append(Finding("C01", "C01.b", L, "TextXVisitor." + fn_name, "modifiers", "repetition modifiers not applied: %s" % sorted(need_ - rd)))
     # C01.c: rule modifiers only on expressions that honour them (truth table on the setattr path)
